@@ -239,6 +239,9 @@ def run(repo, rep):
               (f"at end={wrong[0]}, stride={wrong[1]}, skirt_bottom={wrong[2]}, upscale={wrong[3]}, height={wrong[4]} the statements give {wrong[5]}, expected {wrong[6]}: "
                "every non-last stripe of an operator reading an upscaled IFM gets one IFM row too few") if wrong else "")
     rule_slice_window(repo, rep)
+    rule_rolling_buffer_addressing(repo, rep)
+    rule_tensor_effect_order(repo, rep)
+    rule_tile_base_offset_side(repo, rep)
     rep.floor("C10-c", 18)
 
     # ---------------------------------------------------------------- d
@@ -428,3 +431,109 @@ def rule_slice_window(repo, rep):
     rep.check(wrong is None, "C10-c", site, f"with a fused slice the IFM box is taken inside the window [offset, offset + shape): start = max(s*stride - skirt, 0) + offset, end = min(e*stride + skirt, shape) + offset ({pts} points)",
               (f"at {wrong[0]}: rows/cols/padding (h0, h1, w0, w1, pad_top, pad_bottom) = {wrong[1]}, expected {wrong[2]}: the read offset is multiplied by the stride and / or the rows are clipped against the whole tensor instead of the "
                "window (demonstrated: CONV 1x1 -> STRIDED_SLICE rows 4..12 -> CONV 3x3 stride 2: IFM rows 8..15 instead of 4..11)") if wrong else "")
+
+
+def rule_rolling_buffer_addressing(repo, rep):
+    """(h) rows of a rolling buffer wrap modulo the buffer's own storage height. Both address functions of Tensor take the operator's shape for
+    the wrap only for a *standard* feature map and the tensor's (reduced) storage shape otherwise: the selecting tests contain
+    `self.is_standard_fm` in both, and the fallback is the storage shape."""
+    from ..exprnorm import conjuncts as _cj
+
+    rep.clause("C10-h", "addresses inside a rolling buffer wrap modulo the buffer's storage shape: Tensor.addresses_for_rolling_buffer and Tensor.address_for_coordinate use the operator's shape only for standard feature maps")
+    tm = repo.mod("tensor")
+    n = 0
+    for fname in ("Tensor.addresses_for_rolling_buffer", "Tensor.address_for_coordinate"):
+        fn = tm.func(fname)
+        sel = [i for i in ast.walk(fn) if isinstance(i, ast.If) and any(isinstance(x, ast.Call) and str(norm(x.func)) == "self.get_4D_storage_shape_for_shape" for b in i.body for x in ast.walk(b))
+               and any("self.storage_shape" in str(norm(b)) for b in i.orelse)]
+        if len(sel) != 1:
+            raise AnalysisError(f"{fname}: selection between the operator's shape and the storage shape not found")
+        n += 1
+        cj = [str(norm(c)) for c in _cj(sel[0].test)]
+        rep.check("self.is_standard_fm" in cj, "C10-h", f"ethosu/vela/tensor.py:{fname}", "the operator's shape is used for the wrap only if the tensor is a standard feature map",
+                  f"selected by `{str(norm(sel[0].test))}`: for a tensor in a cascade's rolling buffer the crossing row is then computed modulo the full feature map height, a box that straddles the end of the "
+                  "buffer is not split into two tiles and the rows after the wrap point are addressed behind the buffer")
+    rep.floor("C10-h", 3)
+
+
+def rule_tensor_effect_order(repo, rep):
+    """(h) effect order of Tensor's mutators: a method that derives a field from its current value (set_new_sub_purpose reduces storage_shape to
+    the rolling buffer) followed, on the same tensor in the same block, by a method that re-computes that field from scratch (set_format
+    derives storage_shape from the full shape) loses the first effect. Read / write sets are taken from the method bodies (calls of other
+    Tensor methods followed two levels)."""
+    tm = repo.mod("tensor")
+    meths = {q.split(".")[1]: fn for q, fn in tm.functions.items() if q.startswith("Tensor.") and q.count(".") == 1}
+
+    def reads(fn, attr, depth=0):
+        for x in ast.walk(fn):
+            if isinstance(x, ast.Attribute) and isinstance(x.value, ast.Name) and x.value.id == "self" and x.attr == attr and isinstance(x.ctx, ast.Load):
+                return True
+            if depth < 2 and isinstance(x, ast.Call) and isinstance(x.func, ast.Attribute) and isinstance(x.func.value, ast.Name) and x.func.value.id == "self" and x.func.attr in meths \
+                    and meths[x.func.attr] is not fn and reads(meths[x.func.attr], attr, depth + 1):
+                return True
+        return False
+
+    writes, resets = {}, {}
+    for n_, fn in meths.items():
+        w = {t.attr for st in ast.walk(fn) if isinstance(st, ast.Assign) for t in st.targets if isinstance(t, ast.Attribute) and isinstance(t.value, ast.Name) and t.value.id == "self"}
+        writes[n_] = w
+        resets[n_] = {a for a in w if not reads(fn, a)}
+    if "storage_shape" not in writes.get("set_format", ()) or "storage_shape" not in writes.get("set_new_sub_purpose", ()):
+        raise AnalysisError("Tensor.set_format / set_new_sub_purpose no longer write storage_shape")
+    npairs = 0
+    for m in repo.core_modules():
+        for q, fn in m.functions.items():
+            if "." in q and q.split(".")[0] in m.functions:
+                continue
+            for owner in ast.walk(fn):
+                for fld in ("body", "orelse"):
+                    blk = getattr(owner, fld, None)
+                    if not isinstance(blk, list):
+                        continue
+                    calls = [(str(norm(st.value.func.value)), st.value.func.attr, st) for st in blk if isinstance(st, ast.Expr) and isinstance(st.value, ast.Call) and isinstance(st.value.func, ast.Attribute) and st.value.func.attr in meths]
+                    for i, (r1, a, s1) in enumerate(calls):
+                        for r2, b, s2 in calls[i + 1:]:
+                            if r1 != r2 or a == b:
+                                continue
+                            npairs += 1
+                            lost = sorted(x for x in (writes[a] & resets[b]) if reads(meths[a], x))
+                            rep.check(not lost, "C10-h", f"{m.rel}:{q}", f"`{r1}.{a}(..)` then `{r1}.{b}(..)`: the second call keeps what the first derived",
+                                      f"`{b}` re-computes {lost} from scratch after `{a}` derived it from its current value: the tensor stays a rolling buffer but its storage shape is the full feature map again "
+                                      "(addresses no longer wrap while the allocator reserves the reduced buffer)")
+    if npairs < 1:
+        raise AnalysisError("no pair of Tensor mutator calls on one receiver found (expected apply_schedule)")
+
+
+def rule_tile_base_offset_side(repo, rep):
+    """(i) the four interleaved quarter-operators of a half-pixel-centres RESIZE_BILINEAR partition the OFM through `tile_base_offsets_ofm`: the
+    row pitch in that offset is the *OFM* width. Names unpacked from `<x>.shape` carry the side of <x> (ifm / ofm); a store into an
+    `_ofm` offset may use spatial extents of the OFM side only (and into an `_ifm` offset those of the IFM side)."""
+    rep.clause("C10-i", "byte offsets stored into tile_base_offsets_ofm / _ifm are built from the spatial extents of the same side (names unpacked from ofm.shape / ifm.shape); tile padding offsets are evaluated on a grid [rule shared with C02-l]")
+    go = repo.mod("tflite_graph_optimiser")
+    n = 0
+    for q, fn in go.functions.items():
+        side = {}
+        for st in ast.walk(fn):
+            if isinstance(st, ast.Assign) and isinstance(st.targets[0], ast.Tuple) and isinstance(st.value, ast.Attribute) and st.value.attr == "shape":
+                base = str(norm(st.value.value))
+                sd = "ofm" if "ofm" in base or "output" in base else "ifm" if "ifm" in base or "input" in base else None
+                if sd and len(st.targets[0].elts) == 4:
+                    for pos, e in enumerate(st.targets[0].elts):
+                        if isinstance(e, ast.Name) and e.id != "_" and pos in (1, 2):
+                            side[e.id] = sd
+        for st in ast.walk(fn):
+            if isinstance(st, ast.Assign) and isinstance(st.targets[0], ast.Subscript) and isinstance(st.targets[0].value, ast.Attribute) and st.targets[0].value.attr in ("tile_base_offsets_ofm", "tile_base_offsets_ifm"):
+                want = st.targets[0].value.attr.split("_")[-1]
+                used = {x.id: side[x.id] for x in ast.walk(st.value) if isinstance(x, ast.Name) and x.id in side}
+                if not used:
+                    continue
+                n += 1
+                wrong = sorted(k for k, v in used.items() if v != want)
+                rep.check(not wrong, "C10-i", f"ethosu/vela/tflite_graph_optimiser.py:{q}", f"`{str(norm(st))[:80]}` uses extents of the {want.upper()}",
+                          f"{wrong} are extents of the other side: the quarter-operators of the odd rows start in the middle of row 0, part of the OFM is written twice and part never")
+    if n < 1:
+        raise AnalysisError("no store into tile_base_offsets_ofm / _ifm built from shape extents found")
+    from . import c02 as _c02
+
+    rep.run_borrowed(_c02, {"C02-l": "C10-i"}, repo, only_sites=("modify_tile_addresses_for_padding",))
+    rep.floor("C10-i", 2)
